@@ -414,7 +414,15 @@ class CursorAnalysis:
             if h.kind == "cmp" and h.op == "==" and isinstance(h.key[0], str) and h.key[0].isidentifier() \
                     and all(h in d for d in ds) and sk(h.r).get("k") in ("Bin",):
                 expand[h.key[0]] = h.r
-        for fct in facts:
+        # a flag tested here may stand for a comparison made earlier (E1 keeps `flag == 0 implies s < end` only while
+        # neither side has been written since)
+        extra = []
+        for h in d0:
+            if h.kind == "imp" and h.fact.kind == "cmp" and all(h in d for d in ds):
+                for fct in facts:
+                    if fct.kind == "cmp" and fct.key[0] == h.key[1] and fct.op == h.relop and fct.key[2] == h.c:
+                        extra.append(h.fact)
+        for fct in list(facts) + extra:
             if fct.kind != "cmp":
                 continue
             a, bb = lin.lin(fct.l, None, expand), lin.lin(fct.r, None, expand)
